@@ -299,32 +299,38 @@ def run(prog, check):
              'every term of TermList is rendered, in order, and the result is the joined text' if okall else
              'not every term is rendered (filter or other source) or the result is not the joined text', 'three terms')
     # ---- R6: AddTerm stores / merges a private Term object, never the caller's ---------------------------
-    at = E.methods.get('AddTerm')
-    if at is None:
-        raise AnalysisError('Equation.AddTerm not found')
+    from ._common import addterm_private_copy
+    at, ok = addterm_private_copy(prog)
     check.saw(at)
-    ga = cfgmod.build(at)
-    tp = at.params()[1]
-    # the object appended is a name bound (on every path to the append) to Term(<parameter>) / a copy of it
-    uses = []
-    for n in ga.stmt_nodes():
-        if n.kind == 'stmt':
-            for c in ast.walk(n.ast):
-                if isinstance(c, ast.Call) and call_name(c) == 'append' and c.args and isinstance(c.args[0], ast.Name) and \
-                        isinstance(c.func, ast.Attribute) and 'TermList' in unparse(c.func.value):
-                    uses.append((n, c.args[0].id))
-    ok = bool(uses)
-    for u, nm in uses:
-        copies = [n for n in ga.stmt_nodes() if n.kind == 'stmt' and isinstance(n.ast, ast.Assign) and isinstance(n.ast.targets[0], ast.Name)
-                  and n.ast.targets[0].id == nm and isinstance(n.ast.value, ast.Call) and call_name(n.ast.value) in ('Term', 'copy', 'deepcopy')
-                  and n.ast.value.args and unparse(n.ast.value.args[0]) == tp]
-        others = [n for n in ga.stmt_nodes() if n.kind == 'stmt' and isinstance(n.ast, ast.Assign) and
-                  nm in target_names(n.ast.targets[0]) and n not in copies]
-        ok = ok and bool(copies) and not others and ga.must_pass(ga.entry, u, copies)
     check.ob('C12.R6', '%s::stores-private-copy' % at.key, ok, at.where,
              'the term object placed in the equation is constructed inside AddTerm on every path' if ok else
              'the caller\'s own Term object can be placed in the equation: a later merge changes the caller\'s object / another equation sharing it',
              'the same Term object added to two equations, or three times to one')
+    # every other store into a term list: only objects constructed on the spot (who-may-write rule over the package)
+    for f_ in prog.all_functions():
+        if '/deprecated/' in f_.module.rel:
+            continue
+        for n_ in ast.walk(f_.node):
+            bad_ = None
+            if isinstance(n_, ast.Assign) and any(isinstance(t_, ast.Attribute) and t_.attr == 'TermList' for t_ in n_.targets):
+                v_ = n_.value
+                fresh_ = isinstance(v_, (ast.List, ast.Tuple)) and all(
+                    isinstance(x_, ast.Call) and call_name(x_) in ('Term', 'copy', 'deepcopy') for x_ in v_.elts)
+                fresh_ = fresh_ or (isinstance(v_, ast.ListComp) and isinstance(v_.elt, ast.Call) and call_name(v_.elt) in ('Term', 'copy', 'deepcopy'))
+                if not fresh_:
+                    bad_ = 'the term list is set to `%s`' % unparse(v_)[:80]
+            elif isinstance(n_, ast.Call) and call_name(n_) in ('append', 'insert', 'extend') and isinstance(n_.func, ast.Attribute) and \
+                    isinstance(n_.func.value, ast.Attribute) and n_.func.value.attr == 'TermList' and f_ is not at:
+                a_ = n_.args[-1] if n_.args else None
+                if not (isinstance(a_, ast.Call) and call_name(a_) in ('Term', 'copy', 'deepcopy')):
+                    bad_ = 'a term list receives `%s`' % (unparse(a_)[:80] if a_ is not None else '?')
+            else:
+                continue
+            check.saw(f_)
+            check.ob('C12.R6', '%s::term-list-store(%s)' % (f_.key, unparse(n_)[:50]), bad_ is None, '%s:%d' % (f_.module.rel, n_.lineno),
+                     'the term list only ever holds objects constructed for it' if bad_ is None else
+                     bad_ + ': an object the caller still holds (or another equation shares) becomes part of the equation, and merging like terms rewrites it in place',
+                     'one Term object used to build two equations, then a like term added to one of them')
     # ---- AddTerm: merge only textually equal terms (R1 companion) -----------------------------------
     # ---- R7: a term keeps the text it was given ----------------------------------------------------------
     from ._common import term_text_verbatim
